@@ -406,18 +406,26 @@ def suite_dask(ctx):
         bad = np.array([[rng.random() < 0.08 for _ in range(scols)] for _ in range(srows)])
         data[bad] = np.nan
         kw = {"weight_delta_max": rng.choice([10.0, 3.0]), "weight_distance_max": rng.choice([1.0, 1.4])}
+        # an explicit numeric fill value (0 and -999 are both common): marked pixels are invalid input, empty cells carry the fill
+        fillv = [None, 0.0, -999.0][it % 3]
+        if fillv is not None:
+            data = np.where(np.isnan(data), dtype(fillv), data).astype(dtype)
+        fkw = {} if fillv is None else {"fill_value": fillv}
         for mwm in (False, True):
             with warnings.catch_warnings():
                 warnings.simplefilter("ignore")
                 cnt, cols, rows = ll2cr(SwathDefinition(lons.copy(), lats.copy()), area)
                 try:
-                    _, ref = fornav(cols, rows, area, data.copy(), rows_per_scan=rps, maximum_weight_mode=mwm, **kw)
+                    _, ref = fornav(cols, rows, area, data.copy(), rows_per_scan=rps, maximum_weight_mode=mwm, fill=fillv, **kw)
                 except RuntimeError:
                     continue
             ref = np.asarray(ref, float)
-            vmin, vmax = np.nanmin(data), np.nanmax(data)
+            if fillv is not None:
+                ref = np.where(ref == fillv, np.nan, ref)
+            vdat = data[~bad]
+            vmin, vmax = float(vdat.min()), float(vdat.max())
             inp0 = {"area": {"proj": proj, "width": w, "height": h, "extent": list(ext)}, "swath": [srows, scols], "rows_per_scan": rps, "dtype": np.dtype(dtype).name,
-                    "mode": "max" if mwm else "avg", "kwargs": kw, "lons_checksum": float(lons.sum()), "nan_pixels": int(bad.sum())}
+                    "mode": "max" if mwm else "avg", "kwargs": kw, "fill_value": fillv, "lons_checksum": float(lons.sum()), "nan_pixels": int(bad.sum())}
             in_chunkings = [rps * nscans, rps, rps * 2]
             irregular = ((2, 5, h - 7), (3, w - 7, 4))                        # three unequal chunks per axis
             out_chunkings = ([(h, w), (5, 7), (h, 4), (3, w), ((1, h - 1), (w - 2, 2)), irregular, (1, 1)] if not ctx.quick
@@ -435,10 +443,12 @@ def suite_dask(ctx):
                                                  xr.DataArray(da.from_array(lats, chunks=(inc, scols)), dims=("y", "x")))
                             rs = DaskEWAResampler(sw, area)
                             xd = xr.DataArray(da.from_array(data, chunks=(inc, scols)), dims=("y", "x"))
-                            res = rs.resample(xd, rows_per_scan=rps, chunks=outc, maximum_weight_mode=mwm, persist=persist, **kw)
+                            res = rs.resample(xd, rows_per_scan=rps, chunks=outc, maximum_weight_mode=mwm, persist=persist, **fkw, **kw)
                             got = np.asarray(res.values, float)
                             # the same resampler again (cached ll2cr results are reused)
-                            got2 = np.asarray(rs.resample(xd, rows_per_scan=rps, chunks=outc, maximum_weight_mode=mwm, **kw).values, float)
+                            got2 = np.asarray(rs.resample(xd, rows_per_scan=rps, chunks=outc, maximum_weight_mode=mwm, **fkw, **kw).values, float)
+                        if fillv is not None:
+                            got, got2 = np.where(got == fillv, np.nan, got), np.where(got2 == fillv, np.nan, got2)
                         inp = {**inp0, "input_chunk_rows": inc, "output_chunks": str(outc), "persist": persist}
                         nblocks = (1 if isinstance(outc[0], int) and outc[0] >= h else 2)
                         ctx.case("dask", (name, lons.tobytes(), data.tobytes(), mwm, inc, str(outc), persist, str(kw)), nontrivial=True,
